@@ -44,6 +44,10 @@ func (s scripted3) Render(_ sdf.SDF3, out sdf.Triangle3Writer) {
 		if len(s.chunks) > 0 {
 			n = s.chunks[k%len(s.chunks)]
 		}
+		if n < 0 { // Close() used as a flush in the middle of the stream
+			out.Close()
+			continue
+		}
 		if i+n > len(s.ts) {
 			n = len(s.ts) - i
 		}
@@ -65,6 +69,10 @@ func (s scripted2) Render(_ sdf.SDF2, out sdf.Line2Writer) {
 		if len(s.chunks) > 0 {
 			n = s.chunks[k%len(s.chunks)]
 		}
+		if n < 0 { // Close() used as a flush in the middle of the stream
+			out.Close()
+			continue
+		}
 		if i+n > len(s.ls) {
 			n = len(s.ls) - i
 		}
@@ -75,7 +83,7 @@ func (s scripted2) Render(_ sdf.SDF2, out sdf.Line2Writer) {
 }
 
 // chunk patterns for the long lists (buffer thresholds: 256 triangles, 128 segments)
-var chunkPatterns = [][]int{{3, 130, 2}, {1, 128, 131}, {127, 2, 271}, {129, 129}, {256, 1, 3}, {3, 260, 127}, {5, 0, 300}, {600}}
+var chunkPatterns = [][]int{{3, 130, 2}, {1, 128, 131}, {127, 2, 271}, {129, 129}, {256, 1, 3}, {3, 260, 127}, {5, 0, 300}, {600}, {60, -1}, {7, -1, 130, -1, 1}}
 
 func (s scripted2) Info(sdf.SDF2) string { return "scripted" }
 
@@ -149,6 +157,9 @@ func main() {
 		T(p(2, 2, 2), p(2+5e-7, 2, 2), p(2, 3, 2)),                  // sliver: two corners closer than 1e-6
 		T(p(1e-5, 0, 0), p(0, 1e-5, 0), p(0, 0, 1e-5)),              // tiny but non-degenerate
 		T(p(0, 1, 0), p(1, 0, 0), p(0, 0, 0)),                       // the first one with reversed winding
+		T(p(1, 2, 3), p(1, 2, 3), p(4, 5, 6)),                       // two identical corners: still one triangle of the list
+		T(p(7, 5000, 0), p(7, 5001, 0), p(7, 5000, 3)),              // a part more than 2147.48 units from the origin (beyond int32 micro-units)
+		T(p(-3000, -3000, -3000), p(-3001, -3000, -3000), p(-3000, -3002, -3000)),
 	}
 	l3 := lists(menu3, vlib.Pick(c, 3, 4))
 	chunk3 := map[int][]int{}
@@ -157,7 +168,8 @@ func main() {
 			var ts []*sdf.Triangle3
 			for k := 0; k < n; k++ {
 				f := float64(k)
-				ts = append(ts, T(p(f, 0, 0), p(f+0.5, 1+float64(k%3), 0), p(f, 0, 1+float64(pi))))
+				// every triangle shares the apex (0, -7, 9) with all the others, and its first corner with its predecessor's second
+				ts = append(ts, T(p(f, 0, 0), p(f+1, 0, 0), p(0, -7, 9+float64(pi))))
 			}
 			chunk3[len(l3)] = pat
 			l3 = append(l3, ts)
